@@ -334,15 +334,22 @@ Definition is_op (p : pc) : bool :=
   | _ => false
   end.
 
-Fixpoint advance (fuel : nat) (s : state) (t : nat) : state :=
+(* Which goroutine passes initOnce or takes a parCache entry first among several that were
+   woken together is decided by the Go runtime, not by the controller; the replay therefore
+   takes the gate steps of a thread only when its next call is observed ([gates] = true) and
+   stops in front of them when running on after a call. *)
+Definition is_gate (p : pc) : bool :=
+  match p with PStart | PInitGate | PCellGate => true | _ => false end.
+
+Fixpoint advance (gates : bool) (fuel : nat) (s : state) (t : nat) : state :=
   match fuel with
   | O => s
   | S f =>
       match nth_error (s_threads s) t with
       | Some th =>
-          if is_op (t_pc th) then s
+          if is_op (t_pc th) || (negb gates && is_gate (t_pc th)) then s
           else match step s t with
-               | Some (s', _) => advance f s' t
+               | Some (s', _) => advance gates f s' t
                | None => s
                end
       | None => s
@@ -384,10 +391,10 @@ Fixpoint replay (k : nat) (tr : list obs) (s : state) : state + replay_err :=
   | [] => inl s
   | OGrow :: r => match grow s with Some s' => replay (S k) r s' | None => inr (EGrow k) end
   | OStep t l :: r =>
-      let s1 := advance adv_fuel s t in
+      let s1 := advance true adv_fuel s t in
       match step s1 t with
       | Some (s2, l') =>
-          if label_eqb l l' then replay (S k) r (advance adv_fuel s2 t)
+          if label_eqb l l' then replay (S k) r (advance false adv_fuel s2 t)
           else if label_kind_eqb l l' then inr (EValues k) else inr (ENotEnabled k)
       | None => inr (ENotEnabled k)
       end
@@ -395,7 +402,7 @@ Fixpoint replay (k : nat) (tr : list obs) (s : state) : state + replay_err :=
 
 (* after the last observation every thread runs its remaining silent steps *)
 Fixpoint advance_all (ts : list nat) (s : state) : state :=
-  match ts with [] => s | t :: r => advance_all r (advance adv_fuel s t) end.
+  match ts with [] => s | t :: r => advance_all r (advance true adv_fuel s t) end.
 Fixpoint finish (rounds : nat) (s : state) : state :=
   match rounds with
   | O => s
